@@ -40,7 +40,17 @@ def process_state():
     import decimal
     import locale
     import numpy as np
+    mod_globals = {}
+    for mn, mod in list(sys.modules.items()):
+        if mod is None or not mn.startswith("scinumtools.solver"):
+            continue
+        for k, v in vars(mod).items():
+            if k.startswith("__") or isinstance(v, type) or callable(v) or type(v).__name__ == "module":
+                continue
+            # module-level data and module-level objects of the solver (e.g. shared atoms)
+            mod_globals[mn + "." + k] = repr(vars(v)) if hasattr(v, "__dict__") else repr(v)
     return {
+        "solver module globals": mod_globals,
         "np.geterr": dict(np.geterr()),
         "np.geterrcall": repr(np.geterrcall()),
         "np.printoptions": repr(sorted(np.get_printoptions().items(), key=lambda kv: kv[0])),
